@@ -137,7 +137,7 @@ func NewClientUsingWebSocket(endpoint string, wsDialer Dialer, opts ...WebSocket
 	client := &webSocketClient{
 		Dialer:        wsDialer,
 		header:        http.Header{},
-		errChan:       make(chan error),
+		errChan:       make(chan error, 1),
 		endpoint:      endpoint,
 		subscriptions: subscriptionMap{map_: make(map[string]subscription)},
 	}
